@@ -12,10 +12,23 @@ import (
 
 	"git.apache.org/thrift.git/lib/go/thrift"
 	erpc "github.com/henrylee2cn/erpc/v6"
+	"github.com/henrylee2cn/erpc/v6/plugin/heartbeat"
 	"github.com/henrylee2cn/erpc/v6/plugin/overloader"
 	"github.com/henrylee2cn/erpc/v6/proto/rawproto"
 	"github.com/henrylee2cn/erpc/v6/proto/thriftproto"
+	"github.com/henrylee2cn/erpc/v6/xfer/gzip"
 )
+
+const gzipPipeID = 'g'
+
+// pipe returns message settings: a third of the byte-bodied messages travel through the gzip
+// transfer filter (its pooled buffers and writers are shared by all sessions).
+func pipe(r *rand.Rand) []erpc.MessageSetting {
+	if r.Intn(3) == 0 {
+		return []erpc.MessageSetting{erpc.WithXferPipe(gzipPipeID)}
+	}
+	return nil
+}
 
 // ---- a thrift struct for the struct protocol (same shape as the repository's test type) ----
 
@@ -169,7 +182,7 @@ func apiOp(r *rand.Rand, sc string, pk protoKind, sess erpc.Session, peers []erp
 			cmd = sess.Call(callPathS, &TMsg{Author: ids[r.Intn(len(ids))]}, &res)
 		} else {
 			var res []byte
-			cmd = sess.Call(callPathB, RandBytes(r, 1+r.Intn(40)), &res, erpc.WithAddMeta("a", "b"))
+			cmd = sess.Call(callPathB, RandBytes(r, 1+r.Intn(400)), &res, append(pipe(r), erpc.WithAddMeta("a", "b"))...)
 		}
 		cmd.Reply()
 		cmd.CostTime()
@@ -183,7 +196,7 @@ func apiOp(r *rand.Rand, sc string, pk protoKind, sess erpc.Session, peers []erp
 			if pk.strukt {
 				cmds = append(cmds, sess.AsyncCall(callPathS, &TMsg{Author: "a"}, new(TMsg), ch))
 			} else {
-				cmds = append(cmds, sess.AsyncCall(callPathB, []byte("abc"), new([]byte), ch))
+				cmds = append(cmds, sess.AsyncCall(callPathB, RandBytes(r, 1+r.Intn(400)), new([]byte), ch, pipe(r)...))
 			}
 		}
 		for range cmds {
@@ -198,7 +211,7 @@ func apiOp(r *rand.Rand, sc string, pk protoKind, sess erpc.Session, peers []erp
 		if pk.strukt {
 			sess.Push(pushPathS, &TMsg{Author: "p"})
 		} else {
-			sess.Push(pushPathB, RandBytes(r, 1+r.Intn(40)))
+			sess.Push(pushPathB, RandBytes(r, 1+r.Intn(400)), pipe(r)...)
 		}
 	case k < 12:
 		sess.SetID(ids[r.Intn(len(ids))])
@@ -480,7 +493,120 @@ func scenOverload(deadline time.Time, seed int64) {
 	wg.Wait()
 }
 
+// scenario: redial-enabled Dial against a server that drops every connection right after
+// accepting it, while another goroutine enumerates the client's sessions and asks Health():
+// the read goroutine reaches readDisconnected -> redialForClient as early as possible after Dial
+// has shared the session.
+type rejectPlugin struct{}
+
+func (rejectPlugin) Name() string { return "c14-reject" }
+func (rejectPlugin) PostAccept(erpc.PreSession) *erpc.Status {
+	return erpc.NewStatus(erpc.CodeInternalServerError, "rejected", nil)
+}
+
+func scenDialDrop(deadline time.Time, seed int64) {
+	sc := "dialdrop"
+	srv := newPeer(erpc.PeerConfig{}, rejectPlugin{})
+	defer srv.Close()
+	lis, err := Listen(srv, "")
+	if err != nil {
+		fmt.Println("WARN listen:", err)
+		return
+	}
+	defer lis.Close()
+	cli := newPeer(erpc.PeerConfig{RedialTimes: 1, RedialInterval: time.Millisecond})
+	defer cli.Close()
+	stop := make(chan struct{})
+	var wg sync.WaitGroup
+	wg.Add(1)
+	go func() { // enumerator
+		defer wg.Done()
+		for {
+			select {
+			case <-stop:
+				return
+			default:
+			}
+			cli.RangeSession(func(s erpc.Session) bool { s.Health(); s.ID(); return true })
+			cli.CountSession()
+		}
+	}()
+	for time.Now().Before(deadline) {
+		sess, stat := cli.Dial(lis.Addr)
+		countOp(sc)
+		if !stat.OK() {
+			time.Sleep(2 * time.Millisecond)
+			continue
+		}
+		sess.Health()
+		time.Sleep(time.Duration(1+seed%3) * time.Millisecond)
+		closed := make(chan struct{})
+		go func() { sess.Close(); close(closed) }()
+		select {
+		case <-closed:
+		case <-time.After(3 * time.Second):
+			fmt.Println("WARN scenario", sc, "Close did not return in 3s")
+		}
+	}
+	close(stop)
+	wg.Wait()
+}
+
+// scenario: the shipped heartbeat plugins (Ping on the client, Pong on the server) with traffic
+// in flight whenever their workers wake up (every 3 s, the minimum rate)
+func scenHeartbeat(deadline time.Time, seed int64) {
+	sc := "heartbeat"
+	srv := newPeer(erpc.PeerConfig{}, heartbeat.NewPong())
+	cli := newPeer(erpc.PeerConfig{}, heartbeat.NewPing(3, seed%2 == 0))
+	defer srv.Close()
+	defer cli.Close()
+	pk := protos[0]
+	var pairs []*Pair
+	for i := 0; i < 2; i++ {
+		if p := ServePair(srv, cli, pk.mk()); p.CliSess != nil && p.SrvSess != nil {
+			pairs = append(pairs, p)
+		}
+	}
+	if len(pairs) == 0 {
+		return
+	}
+	var wg sync.WaitGroup
+	for g := 0; g < 4; g++ {
+		wg.Add(1)
+		r := rand.New(rand.NewSource(seed + int64(g)))
+		go func(g int) {
+			defer wg.Done()
+			for time.Now().Before(deadline) {
+				p := pairs[r.Intn(len(pairs))]
+				s := p.CliSess
+				if g%2 == 1 {
+					s = p.SrvSess
+				}
+				countOp(sc)
+				if r.Intn(2) == 0 {
+					ch := make(chan erpc.CallCmd, 1)
+					s.AsyncCall(callPathB, RandBytes(r, 1+r.Intn(60)), new([]byte), ch)
+					select {
+					case <-ch:
+					case <-time.After(2 * time.Second):
+					}
+				} else {
+					s.Push(pushPathB, RandBytes(r, 1+r.Intn(60)))
+				}
+				time.Sleep(200 * time.Microsecond)
+			}
+		}(g)
+	}
+	wg.Wait()
+	for _, p := range pairs {
+		go p.CliSess.Close()
+		go p.SrvSess.Close()
+	}
+	time.Sleep(50 * time.Millisecond)
+}
+
 func childStress(cfg *RunCfg) {
+	gzip.Reg(gzipPipeID, "gzip-5", 5)
 	deadline := time.Now().Add(time.Duration(cfg.N) * time.Second)
 	// make the route paths known before any scenario starts (they are package-level strings)
 	tmp := newPeer(erpc.PeerConfig{})
@@ -495,6 +621,8 @@ func childStress(cfg *RunCfg) {
 	run(func() { scenRedial(deadline, cfg.Seed*1000+10, protos[0]) })
 	run(func() { scenRedial(deadline, cfg.Seed*1000+11, protos[1]) })
 	run(func() { scenOverload(deadline, cfg.Seed*1000+20) })
+	run(func() { scenDialDrop(deadline, cfg.Seed*1000+30) })
+	run(func() { scenHeartbeat(deadline, cfg.Seed*1000+40) })
 	all := make(chan struct{})
 	go func() { wg.Wait(); close(all) }()
 	select {
